@@ -158,48 +158,53 @@ theorem blocks_total (rb : Bytes) :
 theorem blocks_fuel (fuel : Nat) (rb : Bytes) (h : rb.length < fuel) :
     collect fuel (.some rb) 0 = iterBlocks (.some rb) := collect_fuel fuel rb h
 
-/-- A single `next` call never panics on an attached buffer, whatever the cursor, and once it has
-returned `None` it keeps returning `None` (the iterator is fused). -/
-theorem next_total (rb : Bytes) (c : Nat) :
-    next (.some rb) c ≠ .panic ∧
-    (∀ c', next (.some rb) c = .done c' → next (.some rb) c' = .done c') := by
-  by_cases hc : c < rb.length
-  · rw [next_spec rb c hc]
-    cases Spec.blockLen (rb.drop c) with
-    | none =>
+/-- A single `next` call never panics, with or without an attached buffer and whatever the cursor,
+and once it has returned `None` it keeps returning `None` (the iterator is fused). -/
+theorem next_total (raw : Raw) (hr : raw ≠ .panic) (c : Nat) :
+    next raw c ≠ .panic ∧
+    (∀ c', next raw c = .done c' → next raw c' = .done c') := by
+  cases raw with
+  | panic => exact absurd rfl hr
+  | none =>
+    refine ⟨by simp [next], ?_⟩
+    intro c' h
+    simp only [next] at h ⊢
+  | some rb =>
+    by_cases hc : c < rb.length
+    · rw [next_spec rb c hc]
+      cases Spec.blockLen (rb.drop c) with
+      | none =>
+        refine ⟨by simp, ?_⟩
+        intro c' h
+        cases h
+        exact next_done rb _ (Nat.le_refl _)
+      | some n => exact ⟨by simp, by intro c' h; cases h⟩
+    · rw [next_done rb c (by omega)]
       refine ⟨by simp, ?_⟩
       intro c' h
       cases h
-      exact next_done rb _ (Nat.le_refl _)
-    | some n => exact ⟨by simp, by intro c' h; cases h⟩
-  · rw [next_done rb c (by omega)]
-    refine ⟨by simp, ?_⟩
-    intro c' h
-    cases h
-    exact next_done rb c (by omega)
+      exact next_done rb c (by omega)
 
-/-- For every peripheral state reachable with a diagnostics buffer attached (invariant `Valid`,
-capacity > 0): iteration and `{:?}` formatting are total. -/
-theorem blocks_total_partial (e : ExtDiag) (hv : e.Valid) (ha : e.isAvailable = true) :
-    e.blocks = .ok (Spec.parse (e.buf.take e.length)) ∧ e.debugFails = false := by
-  have h0 : ¬ e.buf.length = 0 := by
-    unfold ExtDiag.isAvailable at ha; simp at ha; omega
+/-- Without a diagnostics buffer (the default) there is nothing to iterate: `next` returns `None`
+at once (repaired finding C17-N1; the `unwrap()` used to panic here). -/
+theorem blocks_nobuf : iterBlocks .none = .ok [] ∧ ∀ c, next .none c = .done c :=
+  ⟨by decide, fun _ => rfl⟩
+
+/-- For *every* state of `ExtendedDiagnostics` a peripheral can be in (invariant `Valid`), with or
+without a buffer: iteration terminates without panic and yields the specification's blocks of the
+stored bytes (none without a buffer), and `{:?}` formatting is total. -/
+theorem blocks_total_full (e : ExtDiag) (hv : e.Valid) :
+    e.blocks = .ok (if e.isAvailable then Spec.parse (e.buf.take e.length) else []) ∧
+    e.debugFails = false := by
   refine ⟨?_, debugFails_of_valid hv⟩
   unfold ExtDiag.blocks
-  rw [raw_of_valid hv]; simp [h0, iterBlocks_spec]
-
-/-- The statement without the "buffer attached" hypothesis … -/
-def blocks_total_full : Prop := ∀ e : ExtDiag, e.Valid → ∃ bs, e.blocks = .ok bs
-
-/-- … is false (finding, class `K_C17_nobuf`): on a peripheral *without* diagnostics buffer — the
-default — `iter_diag_blocks().next()` panics in `raw_diag_buffer().unwrap()`. -/
-theorem blocks_nobuf_counterexample :
-    (ExtDiag.ofSize 0).blocks = .panic ∧ next (ExtDiag.ofSize 0).raw 0 = .panic ∧ ¬ blocks_total_full := by
-  refine ⟨by decide, by decide, ?_⟩
-  intro h
-  obtain ⟨bs, hb⟩ := h (ExtDiag.ofSize 0) (valid_ofSize 0)
-  have : (ExtDiag.ofSize 0).blocks = .panic := by decide
-  rw [this] at hb; cases hb
+  rw [raw_of_valid hv]
+  by_cases h0 : e.buf.length = 0
+  · have ha : e.isAvailable = false := by simp [ExtDiag.isAvailable, h0]
+    simp only [h0, if_true, ha, Bool.false_eq_true, if_false]
+    exact blocks_nobuf.1
+  · have ha : e.isAvailable = true := by simp [ExtDiag.isAvailable]; omega
+    simp [h0, ha, iterBlocks_spec]
 
 /-- The yielded blocks are exactly those of the independent recursive specification … -/
 theorem blocks_spec (rb : Bytes) : iterBlocks (.some rb) = .ok (Spec.parse rb) := iterBlocks_spec rb
@@ -363,6 +368,8 @@ example : (PState.init 4).ext.Valid ∧
   refine ⟨valid_ofSize 4, by decide, by decide, by decide⟩
 example : handle (PState.init 4) (.data goodHeader [0x08, 0x0c, 0x00, 0x03, 0x12, 0x34, 0x02, 0x55]) =
     .accepted ⟨some ⟨0x0808, 0x1234, some 3⟩, ⟨[0x02, 0x55, 0, 0], 2⟩⟩ := by decide
+example : (ExtDiag.ofSize 0).Valid ∧ (ExtDiag.ofSize 0).isAvailable = false ∧
+    (ExtDiag.ofSize 0).blocks = .ok [] := ⟨valid_ofSize 0, by decide, by decide⟩
 example : handle (PState.init 4) .sc = .rejected ∧
     handle (PState.init 4) (.data goodHeader [0x08, 0x0c, 0x00, 0x03, 0x12]) = .rejected := by decide
 example : decide (3 < [0x00, 0x43, 0x01, 0x02].length) = true ∧
